@@ -112,6 +112,61 @@ Proof.
 Qed.
 Print Assumptions C19_gtp2_shape.
 
+(* the information elements account for every octet behind the fixed part: 4 octets of IE header and the content each *)
+Fixpoint g2_ies_size (l : list g2ie) : Z := match l with [] => 0 | e :: t => 4 + zlen (ie_content e) + g2_ies_size t end.
+
+Lemma g2_ies_size_app a b : g2_ies_size (a ++ b) = g2_ies_size a + g2_ies_size b.
+Proof. induction a as [|e a IH]; cbn [app g2_ies_size]; lia. Qed.
+
+Lemma g2_ie_loop_tiles : forall fuel data ci acc ies ce, bytes_ok data -> 0 <= ci <= zlen data -> zlen data - ci < Z.of_nat fuel ->
+  g2_ie_loop fuel data ci acc = (ies, Ok ce) ->
+  ce = zlen data /\ ci + (g2_ies_size ies - g2_ies_size acc) = ce /\ (length acc <= length ies)%nat.
+Proof.
+  induction fuel as [|f IH]; intros data ci acc ies ce Hb Hc Hf; [lia|].
+  cbn [g2_ie_loop]. destruct (ci <? zlen data) eqn:C0; cbn [negb].
+  2:{ intros X. inversion X. subst. repeat split; lia. }
+  destruct (zlen data <? ci + 4) eqn:C1; [discriminate|].
+  rewrite cd_idx_ok by lia. rewrite cd_slc_ok by lia. rewrite cd_rd16_ok by lia. cbn [obind].
+  pose proof (bytes_ok_nth data (Z.to_nat (ci + 1)) Hb) as B1. pose proof (bytes_ok_nth data (Z.to_nat (ci + 1 + 1)) Hb) as B2.
+  set (len := nth (Z.to_nat (ci + 1)) data 0 * 256 + nth (Z.to_nat (ci + 1 + 1)) data 0) in *.
+  destruct (zlen data <? ci + 4 + len) eqn:C2; [discriminate|].
+  rewrite cd_slc_ok by lia. intros X.
+  apply IH in X; [|exact Hb|lia|lia]. destruct X as [E1 [E2 E3]].
+  rewrite g2_ies_size_app in E2. cbn [g2_ies_size ie_content] in E2.
+  assert (Ls : zlen (slice data (Z.to_nat (ci + 4)) (Z.to_nat (ci + 4 + len))) = len) by (unfold zlen in *; rewrite slice_length by lia; lia).
+  rewrite Ls in E2. rewrite app_length in E3. cbn [length] in E3. repeat split; lia.
+Qed.
+
+Theorem C19_gtp2_ies_tile : forall old data l tr, bytes_ok data -> g2_decode_into old data = (l, Ok tt, tr) ->
+  (if g2_teidflag l then 12 else 8) + g2_ies_size (g2_ies l) = zlen data.
+Proof.
+  intros old data l tr Hb. unfold g2_decode_into, g2_decode_gen. cbv zeta. destruct (zlen data <? 4) eqn:C0; [discriminate|].
+  rewrite !cd_idx_ok by lia. rewrite cd_rd16_ok by lia. cbn [ml_bind].
+  match goal with |- context [if zlen data <? 4 + ?m then _ else _] => destruct (zlen data <? 4 + m) eqn:C1 end; [discriminate|].
+  match goal with |- context [if ?tf then _ else _] => destruct tf eqn:Tf end.
+  - destruct (zlen data <? 8) eqn:C2; [discriminate|].
+    rewrite ml_rd32_ok by lia. cbn [ml_bind].
+    destruct (zlen data <? 8 + 4) eqn:C3; [discriminate|].
+    rewrite !cd_idx_ok by lia. cbn [ml_bind].
+    match goal with |- context [g2_ie_loop ?f ?d ?c ?a] =>
+      pose proof (g2_ie_loop_tiles f d c a) as P; destruct (g2_ie_loop f d c a) as [ies o] end.
+    destruct o as [ce|e|s]; [|discriminate|discriminate].
+    destruct (P ies ce Hb ltac:(lia) ltac:(unfold zlen; lia) eq_refl) as [E1 [E2 _]]. subst ce.
+    rewrite !cd_slc_ok by lia. cbn [ml_bind]. intros X.
+    match type of X with (?t, _, _) = _ => assert (El : l = t) by congruence end. subst l.
+    cbn [g2_teidflag g2_ies]. cbn [g2_ies_size] in E2. lia.
+  - destruct (zlen data <? 4 + 4) eqn:C3; [discriminate|].
+    rewrite !cd_idx_ok by lia. cbn [ml_bind].
+    match goal with |- context [g2_ie_loop ?f ?d ?c ?a] =>
+      pose proof (g2_ie_loop_tiles f d c a) as P; destruct (g2_ie_loop f d c a) as [ies o] end.
+    destruct o as [ce|e|s]; [|discriminate|discriminate].
+    destruct (P ies ce Hb ltac:(lia) ltac:(unfold zlen; lia) eq_refl) as [E1 [E2 _]]. subst ce.
+    rewrite !cd_slc_ok by lia. cbn [ml_bind]. intros X.
+    match type of X with (?t, _, _) = _ => assert (El : l = t) by congruence end. subst l.
+    cbn [g2_teidflag g2_ies]. cbn [g2_ies_size] in E2. lia.
+Qed.
+Print Assumptions C19_gtp2_ies_tile.
+
 (* the registered decoder decodeGTPv2: no panic; the layer is added exactly when it returns nil, and then hands on LayerTypePayload *)
 Theorem C19_gtp2_decoder_no_panic : forall data, bytes_ok data ->
   let '(l, added, nx, o, tr) := g2_decode_fn data in
